@@ -73,7 +73,26 @@ theorem C17_guard (s : St) :
       | cons x r =>
         cases x with
         | value v => simp [next, send, blocked_eq, hb, getOneValue]
-        | await => simp [next, send, blocked_eq, hb, getOneValue]; simp [blockedBy]
+        | await bb => simp [next, send, blocked_eq, hb, getOneValue]; simp [blockedBy]
+
+/-- the guard stays armed until the task is COMPUTED: a task returned by `next()` that has started and is parked
+    on a future that needs a batch flush (`startTask` gives `none`) is not computed - `last_task` is untouched by
+    `_send_inner`, so every way of advancing the generator is still refused (RuntimeError; `take_first(gen, 0)` returns
+    `[]`) and changes nothing; and if the task did run to its end before the sibling, it is computed exactly as
+    `_send_inner` run to completion computes it - for every state, every k and every first-await kind -/
+theorem C17_guard_started (s : St) (k : Nat) (b : Bool) (hk : s.futs[k]? = some (.pending b))
+    (hl : s.lastTask = some (.handle k)) :
+    (∀ s1, startTask s b = (s1, none) →
+      s1.blocked = true ∧ s1.lastTask = s.lastTask ∧ s1.futs = s.futs ∧
+      (∀ a : Adv, stepBasic s1 a.toOp = (s1, refused a)) ∧ sendInner s1 = sendInner s) ∧
+    (∀ s1 x, startTask s b = (s1, some x) → sendInner s = (s1, x)) := by
+  have hsp := startTask_spec b s.rest s.pulled s.stopped s.lastTask s.futs
+  have hs : (⟨s.rest, s.pulled, s.stopped, s.lastTask, s.futs⟩ : St) = s := rfl
+  rw [hs] at hsp
+  refine ⟨fun s1 h1 => ?_, hsp.1⟩
+  obtain ⟨hl1, hf1, hsi⟩ := hsp.2 s1 h1
+  have hb1 : s1.blocked = true := by simp [St.blocked, hl1, hf1, hl, hk]
+  exact ⟨hb1, hl1, hf1, fun a => adv_blocked s1 a hb1, hsi⟩
 
 /-- once `next()` has raised StopIteration it raises StopIteration forever, without touching the generator -/
 theorem C17_exhausted (s : St) (h : (next s).2 = .raised .stopIteration) (k : Nat) :
@@ -113,8 +132,9 @@ theorem C17_nested (k : Nat) (b : Body) :
   rw [(C17_list (wrapN k b)).1, values_wrapN]
 
 /-- **C17 as a whole**: for every body and every history of caller operations (next / compute any returned future /
-    take_first n for any n / list_of_generator, in any order, including advancing while a task is uncomputed and
-    after exhaustion), the observations of the model are accepted by the observer `spec` - the same Boolean function
+    take_first n for any n / list_of_generator / `par`: a returned future yielded together with a sibling that advances
+    the generator while that future has started and is parked - in any order, including advancing while a task is
+    uncomputed and after exhaustion), the observations of the model are accepted by the observer `spec` - the same Boolean function
     the check evaluates on the observations of the real code -/
 theorem C17_spec_holds (b : Body) (ops : List Op) : spec b (run (init b) ops) = true := by
   obtain ⟨w', hw⟩ := watchRun_ok b.length ops (watchInit b) (init b) (rel_init b)
@@ -122,32 +142,42 @@ theorem C17_spec_holds (b : Body) (ops : List Op) : spec b (run (init b) ops) = 
 
 /-! non-vacuity -/
 -- a history that exercises the guard, a task with consecutive awaits, END_OF_GENERATOR, repeated take_first
-example : spec [.await, .value 1, .value 2, .await, .await, .value 3, .await]
-    (run (init [.await, .value 1, .value 2, .await, .await, .value 3, .await])
+example : spec [.await true, .value 1, .value 2, .await true, .await true, .value 3, .await true]
+    (run (init [.await true, .value 1, .value 2, .await true, .await true, .value 3, .await true])
       [.next, .take 0, .next, .take 1, .list, .compute 0, .take 0, .take 1, .next, .next, .compute 1, .take 5, .next,
         .next]) = true := by
   decide
-example : (run (init [.await, .value 1]) [.next, .next, .take 1, .compute 0]).map (·.res) =
+example : (run (init [.await true, .value 1]) [.next, .next, .take 1, .compute 0]).map (·.res) =
     [.fut none, .raised .runtimeError, .raised .runtimeError, .item (.val 1)] := by decide
-example : (run (init [.value 1, .await]) [.next, .next, .compute 1, .next, .next]).map (·.res) =
+example : (run (init [.value 1, .await true]) [.next, .next, .compute 1, .next, .next]).map (·.res) =
     [.fut (some 1), .fut none, .item .endMarker, .raised .stopIteration, .raised .stopIteration] := by decide
-example : (takeFirst (init [.await, .value 1, .value 2, .await, .value 3]) 2).2 = .lst [.val 1, .val 2] ∧
-    (takeFirst (init [.await, .value 1, .value 2, .await, .value 3]) 2).1.pulled = 3 := by decide
-example : (run (init [.await, .value 1]) [.next, .take 0, .compute 0, .take 0, .take 1]).map (·.res) =
+example : (takeFirst (init [.await true, .value 1, .value 2, .await true, .value 3]) 2).2 = .lst [.val 1, .val 2] ∧
+    (takeFirst (init [.await true, .value 1, .value 2, .await true, .value 3]) 2).1.pulled = 3 := by decide
+example : (run (init [.await true, .value 1]) [.next, .take 0, .compute 0, .take 0, .take 1]).map (·.res) =
     [.fut none, .lst [], .item (.val 1), .lst [], .lst []] := by decide
 -- the observer is not trivially true: it rejects END_OF_GENERATOR in a result, a lost Value, over-consumption,
 -- a missing RuntimeError, and the old behaviour of take_first(gen, 0)
-example : spec [.value 1, .await] [{ op := .list, res := .lst [.val 1, .endMarker], pos := 2, fin := true, bad := 0 }] = false := by
+example : spec [.value 1, .await true] [{ op := .list, res := .lst [.val 1, .endMarker], sib := none, pos := 2, fin := true, bad := 0 }] = false := by
   decide
-example : spec [.value 1, .value 2] [{ op := .take 2, res := .lst [.val 1], pos := 2, fin := false, bad := 0 }] = false := by
+example : spec [.value 1, .value 2] [{ op := .take 2, res := .lst [.val 1], sib := none, pos := 2, fin := false, bad := 0 }] = false := by
   decide
-example : spec [.value 1, .value 2] [{ op := .take 1, res := .lst [.val 1], pos := 2, fin := false, bad := 0 }] = false := by
+example : spec [.value 1, .value 2] [{ op := .take 1, res := .lst [.val 1], sib := none, pos := 2, fin := false, bad := 0 }] = false := by
   decide
-example : spec [.await, .value 1]
-    [{ op := .next, res := .fut none, pos := 1, fin := false, bad := 0 },
-     { op := .take 1, res := .lst [.val 1], pos := 2, fin := false, bad := 0 }] = false := by decide
-example : spec [.value 1] [{ op := .take 0, res := .lst [.val 1], pos := 1, fin := true, bad := 0 }] = false := by
+example : spec [.await true, .value 1]
+    [{ op := .next, res := .fut none, sib := none, pos := 1, fin := false, bad := 0 },
+     { op := .take 1, res := .lst [.val 1], sib := none, pos := 2, fin := false, bad := 0 }] = false := by decide
+example : spec [.value 1] [{ op := .take 0, res := .lst [.val 1], sib := none, pos := 1, fin := true, bad := 0 }] = false := by
   decide
-example : spec [.await] [{ op := .take 0, res := .lst [], pos := 1, fin := true, bad := 0 }] = false := by decide
+example : spec [.await true] [{ op := .take 0, res := .lst [], sib := none, pos := 1, fin := true, bad := 0 }] = false := by decide
+-- two consumers: the task is parked on a blocking await when the sibling advances (refused), resp. already computed
+example : (run (init [.await true, .value 1, .await false, .value 2]) [.next, .par 0 .next, .next, .par 1 .next]).map
+      (fun o => (o.res, o.sib)) =
+    [(.fut none, none), (.item (.val 1), some (false, .raised .runtimeError)),
+     (.fut none, none), (.item (.val 2), some (true, .raised .stopIteration))] := by decide
+-- the observer rejects an advance that succeeded while the task was started but not computed
+example : spec [.await true, .value 1, .value 2]
+    [{ op := .next, res := .fut none, sib := none, pos := 1, fin := false, bad := 0 },
+     { op := .par 0 .next, res := .item (.val 1), sib := some (false, .fut (some 2)), pos := 3, fin := false, bad := 0 }]
+    = false := by decide
 
 end AsynqModel.Generator
